@@ -9,6 +9,11 @@ import Tahoe.Codec.Model
 * `imm F K N S SEGNUM DATA IDS`      → `setup=…;calc=…;enc=…;dec=…` immutable encoder/downloader path for one segment
 * `mut SEG0 DL K N SEGNUM DATA IDS`  → `pub=…;ret=…;enc=…;dec=…` mutable publish/retrieve path for one segment
 * `zdec K N BLOCKS IDS`              → raw decode of arbitrary (possibly non-genuine) blocks
+* `mask N M`                         → the ascending share numbers selected by the low N bits of M
+* `matrix K N IDS`                   → `enc=<rows of the n×k encoding matrix>;dec=<rows of the k×k decoding matrix for IDS>;inv=<T|F>`
+
+`imm` and `mut` lines end with `;call=<data_size>,<k>,<n>|<ids>|<blocks>`: the decoder parameters and the two lists
+handed to `CRSDecoder.decode` (`none` when the caller raises before calling it).
 
 Blocks: comma-separated lowercase hex, `-` = empty block, `_` = empty list. Ids: comma-separated, `-` = none. -/
 open Tahoe.Drv Tahoe.Codec
@@ -33,6 +38,10 @@ def showEnc (r : Except String (List Block × List Nat)) : String :=
 def encP (p : EncParams) : String := s!"{p.dataSize},{p.k},{p.n},{p.shareSize},{p.lastSharePadding}"
 def decP (p : DecParams) : String := s!"{p.dataSize},{p.k},{p.n},{p.chunkSize},{p.numChunks},{p.shareSize}"
 
+def showCall : Except String (DecParams × List Block × List Nat) → String
+  | .ok (p, shares, ids) => s!"{p.dataSize},{p.k},{p.n}|{if ids.isEmpty then "-" else showNatList ids}|{showBlocks shares}"
+  | .error _ => "none"
+
 def doCodec (dsz k n : Nat) (pieces : List Block) (ids : List Nat) : Option String :=
   let encr := (encSetParams dsz k n).bind (fun p => encEncode rs256 p pieces)
   match encr with
@@ -55,7 +64,7 @@ def doImm (f k n s segnum : Nat) (data : Block) (ids : List Nat) : Option String
     | .ok (blocks, _) => do
       let sel ← selectBlocks blocks ids
       let decr := immDecodeBlocks rs256 k n s z segnum sel
-      pure s!"setup={setupS};calc={calcS};enc={showEnc encr};dec={showRes hexOfBytes decr}"
+      pure s!"setup={setupS};calc={calcS};enc={showEnc encr};dec={showRes hexOfBytes decr};call={showCall (immCodecCall k n s z segnum sel)}"
   | _, _ => some s!"setup={setupS};calc={calcS};enc=skipped;dec=skipped"
 
 def doMut (seg0 dl k n segnum : Nat) (data : Block) (ids : List Nat) : Option String :=
@@ -71,7 +80,7 @@ def doMut (seg0 dl k n segnum : Nat) (data : Block) (ids : List Nat) : Option St
     | .ok (blocks, _), .ok d => do
       let sel ← selectBlocks blocks ids
       let decr := mutDecodeBlocks rs256 d segnum sel
-      pure s!"pub={pubS};ret={retS};enc={showEnc encr};dec={showRes hexOfBytes decr}"
+      pure s!"pub={pubS};ret={retS};enc={showEnc encr};dec={showRes hexOfBytes decr};call={showCall (mutCodecCall d segnum sel)}"
     | _, _ => some s!"pub={pubS};ret={retS};enc={showEnc encr};dec=skipped"
 
 def handle : List String → String
@@ -106,6 +115,20 @@ def handle : List String → String
       if blocks.length != k || ids.length != k || ids.any (· ≥ n) || !zfecParamsOk k n then "bad-op"
       else showBlocks ((rs256 k n).dec blocks ids)
     | _, _, _, _ => "bad-op"
+  | ["mask", n, m] =>
+    match n.toNat?, m.toNat? with
+    | some n, some m => let ids := idsOfMask n m; if ids.isEmpty then "-" else showNatList ids
+    | _, _ => "bad-op"
+  | ["matrix", k, n, ids] =>
+    match k.toNat?, n.toNat?, parseNatList ids with
+    | some k, some n, some ids =>
+      if ids.length != k || ids.any (· ≥ n) || !zfecParamsOk k n then "bad-op"
+      else
+        let e := encMatrix k n
+        let d := decMatrix k ids
+        let inv := matMul d (selectRows e ids) k == identityMatrix k
+        s!"enc={showBlocks e};dec={showBlocks d};inv={if inv then "T" else "F"}"
+    | _, _, _ => "bad-op"
   | _ => "bad-op"
 
 def main : IO Unit := mainLoop handle
